@@ -44,6 +44,7 @@ def cosq(deg, shift):
 def job(spec):
     types, ident, axis = spec[:3]
     lead = len(spec) > 3 and spec[3]      # a leading residue without any base atom (amino acid) in front of the two nucleotides
+    hist = len(spec) > 4 and spec[4]      # an earlier call in the same process on residues with the same identities, the second one 50 A further away
     sys.path.insert(0, "/verif")
     import z3
     from symx.engine import Engine, SReal
@@ -85,10 +86,14 @@ def job(spec):
             gly = Residue3D(None, auth, 1, "X", (Atom(None, None, auth, 1, "CA", c1[0] + 1, c1[1] + 1, c1[2] + 1, 1.0),))
             gly.__dict__["base_normal_vector"] = None
             rs = [gly] + rs
+        if hist:
+            far = list(c2)
+            far[axis] = far[axis] + 50
+            A.find_stackings(Structure3D([mk(id1, types[0], c1, n1), mk(id2, types[1], far, n2)]))
         return A.find_stackings(Structure3D(rs))
     t0 = time.time()
     paths = eng.explore(run)
-    res = {"name": f"{types}:{ident}:ax{axis}:lead{int(bool(lead))}", "paths": len(paths), "verdicts": [], "reach_listed": 0}
+    res = {"name": f"{types}:{ident}:ax{axis}:lead{int(bool(lead))}" + (":after-far-copy" if hist else ""), "paths": len(paths), "verdicts": [], "reach_listed": 0}
     dot = sum((a.e * b.e for a, b in zip(n1, n2)), z3.RealVal(0))
     absdot = z3.If(dot >= 0, dot, -dot)
     # v = c_first - c_second in input order = -d * e_axis ; cos(v, n) = -n[axis]
@@ -100,7 +105,7 @@ def job(spec):
         def val(e):
             r = m.eval(e, model_completion=True)
             return float(r.as_fraction()) if z3.is_rational_value(r) else float(r.approx(15).as_fraction())
-        return {"types": types, "ident": ident, "axis": axis, "lead": bool(lead), "d": val(d.e), "n1": [val(c.e) for c in n1], "n2": [val(c.e) for c in n2],
+        return {"types": types, "ident": ident, "axis": axis, "lead": bool(lead), "hist": bool(hist), "d": val(d.e), "n1": [val(c.e) for c in n1], "n2": [val(c.e) for c in n2],
                 "u": [val(c.e) for c in u], "o": [val(c.e) for c in o]}
     for path, out in paths:
         if isinstance(out, Exception):
@@ -157,6 +162,9 @@ if w.get("lead"):
     gly = Residue3D(None, auth, 1, "X", (Atom(None, None, auth, 1, "CA", c1[0] + 1, c1[1] + 1, c1[2] + 1, 1.0),)); gly.__dict__["base_normal_vector"] = None
     rs = [gly] + rs
 try:
+    if w.get("hist"):
+        far = list(c2); far[w["axis"]] += 50
+        find_stackings(Structure3D([mk(id1, w["types"][0], c1, w["n1"]), mk(id2, w["types"][1], far, w["n2"])]))
     out = find_stackings(Structure3D(rs))
 except Exception as e:
     print("find_stackings raised", type(e).__name__, e); sys.exit(1)
@@ -176,7 +184,7 @@ sys.exit(1 if bad else 0)
 def run(rep, tier):
     from vlib.core import Violation, ncpu
     specs = [(("A", "C"), "same-chain-ascending", 2), (("G", "U"), "same-chain-descending", 0), (("C", "G"), "chain-order", 1),
-             (("U", "A"), "insertion-code", 2, True)]
+             (("U", "A"), "insertion-code", 2, True), (("A", "C"), "same-chain-ascending", 1, False, True)]
     if tier != "quick":
         specs += [(("T", "G"), "negative-number", 0), (("A", "A"), "same-chain-ascending", 0, True), (("G", "G"), "same-chain-ascending", 1),
                   (("C", "U"), "same-chain-descending", 2), (("U", "T"), "chain-order", 0), (("G", "C"), "insertion-code", 1),
